@@ -20,7 +20,8 @@ RULE = ('Generated full sessions on dense synthetic markets (1-5 symbols, every 
         'values 1e-9), recorded target weights. Cases where a sizing quotient lies within 1e-9 of a rounding '
         'boundary are excluded and counted. Non-trivial = >= 2 rebalances, >= 1 sell fill and (fee > 0 or a negative '
         'weight or a held asset that lost its weight... here: an asset with zero/absent weight in the union).'
-        " Round-5 reach: a third of the markets have bars (never a symbol's first) with an empty Open cell - that open trades at the previous close in the reference - and half the files are written newest-first or shuffled.")
+        " Round-5 reach: a third of the markets have bars (never a symbol's first) with an empty Open cell - that open trades at the previous close in the reference - and half the files are written newest-first or shuffled."
+        " Round-11 reach: a third of the sessions have a burn-in instant inside the session (the reference makes no rebalance and records no equity point before it); a quarter pass the other mode's sizing keyword too.")
 ASSUMPTIONS = [
     'dense markets only (gaps and late listings are C06/C07\'s subject)',
     'weight sums are 0 or >= 0.05 (the unscaled near-zero branch is covered by C10/C11)',
@@ -118,6 +119,10 @@ def run_case(case):
         cls.append('symbol_without_prices_for_over_a_week')
     if late_fee is not None:
         cls.append('fee_model_replaced_before_run')
+    if cfg.get('burn_in'):
+        cls.append('burn_in_inside_the_session')
+    if cfg.get('spare_sizing_kw'):
+        cls.append('sizing_keyword_of_the_other_mode_passed_too')
     if case.get('file_order', 'sorted') != 'sorted':
         cls.append('files_' + case['file_order'])
     nreb = len(ref['allocations'])
@@ -177,6 +182,12 @@ def cases(draw):
         cfg['alpha']['weights'] = {a: float('%.6f' % (1.0 / n_ - draw(st.sampled_from([1e-6, 2e-6])))) for a in assets}
         cfg['cash'] = 5e7
         cfg['universe']['assets'] = list(assets)
+    if draw(st.sampled_from([False, False, True])):
+        # a burn-in instant inside the session: no rebalance and no equity point before it
+        bd_ = d0 + D.timedelta(days=draw(st.integers(0, max(1, (3 * (d1 - d0).days) // 4))))
+        cfg['burn_in'] = [bd_.year, bd_.month, bd_.day] + list(draw(st.sampled_from([(0, 0, 0), (14, 30, 0), (21, 0, 0), (21, 0, 1)])))
+    if draw(st.sampled_from([False, False, False, True])):
+        cfg['spare_sizing_kw'] = True            # the other mode's sizing keyword is passed too (a shared settings dict)
     gaps = {}
     if draw(st.sampled_from([False, False, True])):
         for s in names:
